@@ -13,7 +13,7 @@ VARIABLES l,        \* next line to judge
           snap      \* [line, aux] of the last Commit (or InitChain): what a restart must resume from
 vars == <<l, aux, bad, snap>>
 
-InitAux == [props |-> <<>>, nextProp |-> 1, ever |-> [wrk |-> <<>>, bcn |-> <<>>], sh |-> <<>>, ghost |-> {}, ghostp |-> {}, exsig |-> {}]
+InitAux == [props |-> <<>>, nextProp |-> 1, ever |-> [wrk |-> <<>>, bcn |-> <<>>], sh |-> <<>>, ghost |-> {}, ghostp |-> {}, exsig |-> {}, overcap |-> FALSE]
 
 ------------------------------------------------------------------------------
 (* L2: view comparison between the expected and the observed post-state *)
@@ -129,6 +129,10 @@ StepMonitors(s, t, ev) ==
 
 ------------------------------------------------------------------------------
 IsReset(ev) == ev.a = "InitChain"
+\* "Adopt": a scenario-preparation line (harness event Bulk: thousands of records executed without recording each one).
+\* Its observed post-state is adopted as the new starting point; what is in state counts as the acceptance history.
+IsAdopt(ev) == ev.a = "Adopt"
+AdoptAux(o) == [InitAux EXCEPT !.ever = [wrk |-> [i \in DOMAIN o.wrk.ch |-> o.wrk.ch[i].recs], bcn |-> [i \in DOMAIN o.bcn.ch |-> o.bcn.ch[i].recs]]]
 
 Tag(i, layer, props, detail) == { <<i, layer, p, detail>> : p \in props }
 
@@ -171,7 +175,7 @@ Judge(i) ==
      \cup (IF "qpanic" \in DOMAIN ev.post
            THEN {<<i, "L1", "C17", IF EntDenomChanged(ev.post) THEN "SupplyQueryPanicsAfterEnterpriseDenomChange" ELSE "SupplyQueryPanics">>} ELSE {})
      \cup (IF ev.a = "ListQueries" THEN { <<i, "L1", "C20", d>> : d \in ListFindings(ev.post, ev.res.lists) } ELSE {})
-     \cup (IF "postOrig" \in DOMAIN ev /\ ev.a # "ExportImport" /\ ~Bisimilar(ev.post, ev.postOrig)
+     \cup (IF "postOrig" \in DOMAIN ev /\ ev.a # "ExportImport" /\ ~aux.overcap /\ ~Bisimilar(ev.post, ev.postOrig)
            THEN {<<i, "L1", "C15", "ReimportedChainDiverges">>} ELSE {})
      \cup (IF "resOrig" \in DOMAIN ev /\ ev.resOrig.ok # ev.res.ok THEN {<<i, "L1", "C15", "ReimportedChainResultDiffers">>} ELSE {})
      \cup { <<i, "L1", m[1], m[2]>> : m \in ReplicaMonitors(ev) }
@@ -190,7 +194,8 @@ Judge(i) ==
            THEN {<<i, "L1", "C06", AdmissionKind(pre, ev.args)>>} ELSE {})
      \cup (IF ev.a = "Recheck"
            THEN UNION { IF ev.res.results[k].ok /\ ~AdmitIdeal(pre, ev.res.txs[k])
-                        THEN {<<i, "L1", "C06", "StillAdmittedAtRecheck" \o AdmissionKind(pre, ev.res.txs[k])>>} ELSE {} : k \in DOMAIN ev.res.results }
+                        THEN {<<i, "L1", "C06", "StillAdmittedAtRecheck" \o AdmissionKind(pre, ev.res.txs[k])>>,
+                              <<i, "L1", "C16", "StillAdmittedAtRecheck" \o AdmissionKind(pre, ev.res.txs[k])>>} ELSE {} : k \in DOMAIN ev.res.results }
            ELSE {})
      \cup (IF ev.a = "CheckTx" /\ ~ev.res.ok /\ AdmitIdeal(pre, ev.args) /\ HasRegistryOps(ev.args.msgs)
            THEN {<<i, "L2", "note", <<"checktx-refused-exact-fee", FALSE>> >>} ELSE {})
@@ -226,8 +231,14 @@ TraceNext ==
      THEN /\ aux' = InitAux
           /\ snap' = [line |-> l, aux |-> InitAux]
           /\ bad' = bad \cup { <<l, "L1", m[1], m[2]>> : m \in StateMonitors(Trace[l].post) }
+     ELSE IF IsAdopt(Trace[l])
+     THEN /\ aux' = AdoptAux(Trace[l].post)
+          /\ snap' = [line |-> l, aux |-> aux']
+          /\ bad' = bad \cup { <<l, "L1", m[1], m[2]>> : m \in StateMonitors(Trace[l].post) }
      ELSE /\ aux' = IF Trace[l].a = "Restart" THEN snap.aux
-                    ELSE IF Trace[l].a = "ExportImport" THEN aux
+                    \* an export that crossed the 20,000-record cap legitimately loses the older records: from then on
+                    \* the re-imported chain is no longer compared with the original one record by record
+                    ELSE IF Trace[l].a = "ExportImport" THEN [aux EXCEPT !.overcap = @ \/ ~WithinCap(Trace[l - 1].post)]
                     ELSE Step(Trace[l - 1].post @@ [aux |-> aux], Trace[l].args).st.aux
           /\ snap' = IF Trace[l].a = "Commit" THEN [line |-> l, aux |-> aux'] ELSE snap
           /\ bad' = bad \cup JudgeOrHalt(l)
